@@ -310,6 +310,15 @@ fn apply_bad(
 		}
 	};
 	*stats.injected.entry(class.clone()).or_insert(0) += 1;
+	run.eval(
+		&format!(
+			"hostile;class={};header_valid={};head_height_band={}",
+			class,
+			header_valid,
+			before.head.1 / 3
+		),
+		true,
+	);
 	if !refused {
 		run.violation(
 			&format!("C06;class={};invalid_input_accepted", class),
@@ -490,6 +499,18 @@ fn run_history(run: &Run, idx: u64, h: &mut Hist, sc: &Scratch, stats: &mut Stat
 		let ra = subject.process_block(gb.block.clone(), opts);
 		let rb = twin.process_block(gb.block.clone(), opts);
 		stats.twin_steps += 1;
+		run.eval(
+			&format!(
+				"lockstep;res={};hband={}",
+				match &ra {
+					Ok(Some(_)) => "head",
+					Ok(None) => "fork",
+					Err(_) => "refused",
+				},
+				gb.block.header.height / 3
+			),
+			false,
+		);
 		let ka = ra.as_ref().map(|t| t.as_ref().map(|t| t.last_block_h)).map_err(|e| format!("{:?}", e));
 		let kb = rb.as_ref().map(|t| t.as_ref().map(|t| t.last_block_h)).map_err(|e| format!("{:?}", e));
 		if ka != kb {
@@ -611,8 +632,9 @@ fn main() {
 		 fork block (rewind_and_apply_fork first), header batches with the k-th header broken, transactions refused by validate_tx \
 		 (plain and NRD), truncated block bytes through the untrusted reader. Oracles: snapshot(before) == snapshot(after) for every \
 		 refused call (full, or best-chain-only when the refused block's header is itself valid), same for valid blocks that do not \
-		 become head, twin lock-step equality of results and best-chain snapshots, final validate(false). Non-trivial = ≥1 hostile \
-		 input; distinct by (tree shape, number of hostile inputs).",
+		 become head, twin lock-step equality of results and best-chain snapshots, final validate(false). One evaluation per \
+		 hostile input (distinct by class, on-fork flag, header validity, height band), per lock-step delivery (trivial) and per \
+		 history (distinct by tree shape and number of hostile inputs).",
 	);
 	run.assume("real-PoW histories re-mine mutated headers so only the targeted rule fails; header batches are only broken in SKIP_POW histories");
 	let sc = Scratch::new("c06");
